@@ -1,17 +1,17 @@
 /-
-Model of `ReadBuf` (src/io/read_buf.rs:153-334, 353-449) over the memory of
+Model of `ReadBuf` (src/io/read_buf.rs:153-338, 357-453) over the memory of
 its `ReadBufPool` (src/io_uring/io.rs:46-225).
 
 The pool's buffer allocation (`bufs_addr`, `pool_size * buf_size` bytes,
 io.rs:97,122) is a `List UInt8`; addresses are offsets from `bufs_addr`.
 A `ReadBuf` is `owned : Option<NonNull<[u8]>>` (read_buf.rs:157): a fat
 pointer = (offset of the first byte, length). All edits go through
-`change_size` (read_buf.rs:331-334), which keeps the address and rewrites only
+`change_size` (read_buf.rs:335-338), which keeps the address and rewrites only
 the length.
 
-`dev` selects the profile: `true` = debug assertions and overflow checks on
-(the profile of the pinned suite and of the harness), `false` = release
-(`+ 1` wraps, `debug_assert!` compiled out).
+`dev` selects the profile: `true` = debug assertions on (the profile of the
+pinned suite and of the harness), `false` = release (`debug_assert!` in
+`set_len` compiled out). Bounds of `usize::MAX` are rejected in both.
 -/
 import A10Verif.Model.Basic
 
@@ -51,22 +51,22 @@ inductive Op where
   | truncate (n : Nat)
   /-- `clear()` read_buf.rs:204-208 -/
   | clear
-  /-- `remove(range)` read_buf.rs:215-255 -/
+  /-- `remove(range)` read_buf.rs:215-259 -/
   | remove (lo hi : Bound)
-  /-- `set_len(n)` read_buf.rs:263-268 -/
+  /-- `set_len(n)` read_buf.rs:267-272 -/
   | setLen (n : Nat)
-  /-- `extend_from_slice(d)` read_buf.rs:275-296 -/
+  /-- `extend_from_slice(d)` read_buf.rs:279-300 -/
   | extend (d : List Byte)
-  /-- `spare_capacity_mut()[..d.len()].copy_from_slice(d)` read_buf.rs:300-310 -/
+  /-- `spare_capacity_mut()[..d.len()].copy_from_slice(d)` read_buf.rs:304-314 -/
   | spareWrite (d : List Byte)
-  /-- `as_mut_slice()[i] = b` (DerefMut, read_buf.rs:444-449) -/
+  /-- `as_mut_slice()[i] = b` (DerefMut, read_buf.rs:448-453) -/
   | set (i : Nat) (b : Byte)
   /-- `BufMut::extend_from_slice(d)`: `parts_mut`, copy, `set_init`
-  (traits.rs, read_buf.rs:354-369) -/
+  (traits.rs, read_buf.rs:358-373) -/
   | bmExtend (d : List Byte)
   /-- A read into the (owned) buffer: `parts`/`parts_mut` give the spare
   capacity, the kernel writes `min |d| spare` bytes, `set_init` /
-  `buffer_init` (owned branch) add them (read_buf.rs:388-409, io.rs:337-364). -/
+  `buffer_init` (owned branch) add them (read_buf.rs:392-413, io.rs:337-364). -/
   | kread (d : List Byte)
   deriving Repr, DecidableEq
 
@@ -76,23 +76,25 @@ inductive Op where
 def writeAt (mem : List Byte) (a : Nat) (d : List Byte) : List Byte :=
   mem.take a ++ d ++ mem.drop (a + d.length)
 
-/-- `ptr::copy` (memmove, read_buf.rs:250): `n` bytes from `src` to `dst`,
+/-- `ptr::copy` (memmove, read_buf.rs:254): `n` bytes from `src` to `dst`,
 the source is read before anything is written. -/
 def copyWithin (mem : List Byte) (dst src n : Nat) : List Byte :=
   writeAt mem dst ((mem.drop src).take n)
 
 /-! ### The calls -/
 
-/-- read_buf.rs:217-221. `start_idx + 1` overflows for `usize::MAX`. -/
-def startOf (dev : Bool) : Bound → Option Nat
+/-- read_buf.rs:217-223: `start_idx.checked_add(1)`, a panic for `usize::MAX`
+in every profile (since the `fix:` commit 3770672; before it `start_idx + 1`
+wrapped to 0 without overflow checks). -/
+def startOf : Bound → Option Nat
   | .unbounded => some 0
   | .incl s => some s
-  | .excl s => if s + 1 < USIZE then some (s + 1) else if dev then none else some 0
+  | .excl s => if s + 1 < USIZE then some (s + 1) else none
 
-/-- read_buf.rs:222-226. -/
-def endOf (dev : Bool) (len : Nat) : Bound → Option Nat
+/-- read_buf.rs:224-230: `end_idx.checked_add(1)`. -/
+def endOf (len : Nat) : Bound → Option Nat
   | .unbounded => some len
-  | .incl e => if e + 1 < USIZE then some (e + 1) else if dev then none else some 0
+  | .incl e => if e + 1 < USIZE then some (e + 1) else none
   | .excl e => some e
 
 /-- One call on a buffer. Returns the outcome, the new `owned` and the new pool
@@ -107,38 +109,38 @@ def step (dev : Bool) (bs : Nat) (rb : RB) (mem : List Byte) (op : Op) :
       if n > len then (.ok, rb, mem) else (.ok, .owned off n, mem)
     | .clear => (.ok, .owned off 0, mem)
     | .remove lo hi =>
-      match startOf dev lo, endOf dev len hi with
+      match startOf lo, endOf len hi with
       | some s, some e =>
-        -- read_buf.rs:229-233
+        -- read_buf.rs:233-237
         if s > e then (.panic, rb, mem)
         else if e > len then (.panic, rb, mem)
         else
-          -- read_buf.rs:235-237
+          -- read_buf.rs:239-241
           let newLen := len - (e - s)
-          -- read_buf.rs:239-242
+          -- read_buf.rs:243-246
           if newLen = 0 ∨ s ≥ newLen then (.ok, .owned off newLen, mem)
-          -- read_buf.rs:245-251
+          -- read_buf.rs:249-255
           else (.ok, .owned off newLen, copyWithin mem (off + s) (off + e) (newLen - s))
       | _, _ => (.panic, rb, mem)
     | .setLen n =>
-      -- read_buf.rs:264-267
+      -- read_buf.rs:268-271
       if dev ∧ n > bs then (.panic, rb, mem) else (.ok, .owned off n, mem)
     | .extend d =>
-      -- read_buf.rs:277-292
+      -- read_buf.rs:281-296
       if len + d.length > bs then (.err, rb, mem)
       else (.ok, .owned off (len + d.length), writeAt mem (off + len) d)
     | .spareWrite d =>
-      -- read_buf.rs:302-306: the slice starts at `off + len`, `bs - len` long
+      -- read_buf.rs:306-310: the slice starts at `off + len`, `bs - len` long
       if d.length > bs - len then (.panic, rb, mem)
       else (.ok, rb, writeAt mem (off + len) d)
     | .set i b =>
       if i < len then (.ok, rb, writeAt mem (off + i) [b]) else (.panic, rb, mem)
     | .bmExtend d =>
-      -- read_buf.rs:356-357 (`parts_mut`), traits.rs `copy_bytes`, read_buf.rs:365
+      -- read_buf.rs:360-361 (`parts_mut`), traits.rs `copy_bytes`, read_buf.rs:369
       let w := min d.length (bs - len)
       (.num w, .owned off (len + w), writeAt mem (off + len) (d.take w))
     | .kread d =>
-      -- read_buf.rs:391-393 (`parts`), kernel, read_buf.rs:365 / 405
+      -- read_buf.rs:395-397 (`parts`), kernel, read_buf.rs:369 / 409
       let w := min d.length (bs - len)
       (.ok, .owned off (len + w), writeAt mem (off + len) (d.take w))
   | .unowned =>
@@ -146,20 +148,20 @@ def step (dev : Bool) (bs : Nat) (rb : RB) (mem : List Byte) (op : Op) :
     | .truncate _ => (.ok, rb, mem)
     | .clear => (.ok, rb, mem)
     | .remove lo hi =>
-      -- read_buf.rs:216 `original_len = 0`, 252-254
-      match startOf dev lo, endOf dev 0 hi with
+      -- read_buf.rs:216 `original_len = 0`, 256-258
+      match startOf lo, endOf 0 hi with
       | some s, some e => if s ≠ 0 ∨ e ≠ 0 then (.panic, rb, mem) else (.ok, rb, mem)
       | _, _ => (.panic, rb, mem)
     | .setLen n => if dev ∧ n > bs then (.panic, rb, mem) else (.ok, rb, mem)
-    | .extend _ => (.err, rb, mem)           -- read_buf.rs:293-295
+    | .extend _ => (.err, rb, mem)           -- read_buf.rs:297-299
     | .spareWrite d => if d.length > 0 then (.panic, rb, mem) else (.ok, rb, mem)
     | .set _ _ => (.panic, rb, mem)
-    | .bmExtend _ => (.num 0, rb, mem)       -- read_buf.rs:359, 366-368
+    | .bmExtend _ => (.num 0, rb, mem)       -- read_buf.rs:363, 370-372
     | .kread _ => (.ok, rb, mem)             -- a read without a buffer: nothing
                                              -- (selection is `System`-level, below)
 
 /-- `ReadBufPool::init_buffer` (io.rs:151-163) via `buffer_init`
-(read_buf.rs:406-408) / `new_buffer` (read_buf.rs:87-92). -/
+(read_buf.rs:410-412) / `new_buffer` (read_buf.rs:87-92). -/
 def initBuffer (bs id n : Nat) : RB := .owned (id * bs) n
 
 /-- `ReadBufPool::release` (io.rs:173-176, 194-199): the ring entry written
@@ -277,7 +279,7 @@ def begin (ps bs : Nat) : St :=
 
 /-- A read with buffer handle `h` (io.rs:328-365) completed by the kernel with
 the bytes `d`. `kind`: 0 = plain read, 1 = the completion of a read into an
-owned buffer carries a buffer flag with id 0 (read_buf.rs:401-405), 2 = end of
+owned buffer carries a buffer flag with id 0 (read_buf.rs:405-409), 2 = end of
 file (result 0, no buffer). Returns `none` for `ENOBUFS`. -/
 def readOp (s : St) (h : Nat) (kind : Nat) (d : List Byte) : Option St :=
   match s.bufs.getD h .unowned with
@@ -295,7 +297,7 @@ def readOp (s : St) (h : Nat) (kind : Nat) (d : List Byte) : Option St :=
         some { s with mem := writeAt s.mem addr (d.take n), ring := rest,
                       bufs := s.bufs.set h (initBuffer s.bs bid n) }
 
-/-- `release` / drop (read_buf.rs:322-328, io.rs:166-216). -/
+/-- `release` / drop (read_buf.rs:326-332, io.rs:166-216). -/
 def releaseOp (s : St) (h : Nat) : St :=
   match s.bufs.getD h .unowned with
   | .owned off _ =>
